@@ -113,17 +113,41 @@ func (X *Exec) heap(s *State, name string, srt *Sort) *Term {
 		return t
 	}
 	if s.Epoch != 0 && !strings.HasPrefix(name, "LK|") && !strings.HasPrefix(name, "GH|") {
-		k := fmt.Sprintf("%s@e%d", name, s.Epoch)
-		if t, ok := X.epochHeaps[k]; ok {
-			return t
-		}
-		X.heapSorts[name] = srt
-		t := X.E.TS.Const(sanitize(k), srt)
-		X.epochHeaps[k] = t
-		return t
+		return X.heapAtEpoch(name, srt, s.Epoch)
 	}
 	t := X.preHeap(name, srt)
 	return t
+}
+
+// heapAtEpoch: the value of a component that was not written since havoc-everything event `e`. An epoch created by
+// merging two states of different epochs is the ite of the two (so facts known on either side survive the merge).
+func (X *Exec) heapAtEpoch(name string, srt *Sort, e int) *Term {
+	if e == 0 {
+		return X.preHeap(name, srt)
+	}
+	k := fmt.Sprintf("%s@e%d", name, e)
+	if t, ok := X.epochHeaps[k]; ok {
+		return t
+	}
+	X.heapSorts[name] = srt
+	var t *Term
+	if m := X.epochMerge[e]; m != nil {
+		ta, tb := X.heapAtEpoch(name, srt, m.a), X.heapAtEpoch(name, srt, m.b)
+		if ta == tb {
+			t = ta
+		} else {
+			t = X.E.TS.Ite(m.sel, ta, tb)
+		}
+	} else {
+		t = X.E.TS.Const(sanitize(k), srt)
+	}
+	X.epochHeaps[k] = t
+	return t
+}
+
+type epochMergeRec struct {
+	sel  *Term
+	a, b int
 }
 
 func (X *Exec) preHeap(name string, srt *Sort) *Term {
@@ -179,10 +203,6 @@ func (X *Exec) merge2(a, b *State) *State {
 	n.PC = ts.Or(a.PC, b.PC)
 	n.BR = ts.Or(a.br(ts), b.br(ts))
 	n.Epoch = a.Epoch
-	if a.Epoch != b.Epoch {
-		X.epochSeq++
-		n.Epoch = X.epochSeq
-	}
 	// condition selecting a's values: the branch literal on which the two paths diverged
 	// (never the whole path condition: that drags quantified assumptions into ite conditions)
 	sel := X.divergence(a.br(ts), b.br(ts))
@@ -194,6 +214,14 @@ func (X *Exec) merge2(a, b *State) *State {
 			return x
 		}
 		return ts.Ite(sel, x, y)
+	}
+	if a.Epoch != b.Epoch {
+		X.epochSeq++
+		n.Epoch = X.epochSeq
+		if X.epochMerge == nil {
+			X.epochMerge = map[int]*epochMergeRec{}
+		}
+		X.epochMerge[n.Epoch] = &epochMergeRec{sel: sel, a: a.Epoch, b: b.Epoch}
 	}
 	names := map[string]bool{}
 	for k := range a.Heaps {
